@@ -1,7 +1,7 @@
 (* C12 - AMEn solve: the residual-driven rank search and the rank clamp.  Convergence of the sweeps is NOT a theorem (partial).
    Only theorem statements closed by `exact`, each followed by Print Assumptions. *)
 From Coq Require Import List Arith.
-From TT Require Import RingSig SumN Mat Core Skel SkelP FrameP.
+From TT Require Import RingSig SumN Mat Core Skel SkelP FrameP Reduce Local LocalP.
 (* for r in range(n-1,0,-1): if res(r) > bound: break;  r += 1  -  with ok r := (res(r) <= bound) as oracle:
    the returned rank lies in 1..n, every candidate rank from it up to n-1 has a residual within the bound, and the rank just
    below it does not (unless the search reached the bottom) *)
@@ -31,9 +31,43 @@ Theorem C12_entry_setc_scale k (x : tt R) idx s c c' : wf x -> nth_error x k = S
 Proof. exact (entry_setc_scale k x idx s c c'). Qed.
 End Frame.
 
+(* ---- the local problem (Model/Local.v: the interface recursions and the local operator of torchtt/solvers.py, tied exactly on integer data).
+   (1) Forward and backward interface steps are dual: contracting a forward step with any right interface equals contracting the left interface
+   with the backward step - the identity that lets the two half sweeps share their interfaces.  (2) THE GALERKIN IDENTITY: the entry
+   ((l,m,L),(r,n,R)) of the local operator at ANY position of a train of ANY order is the bilinear form of A on the two trains that carry a unit
+   core there and the current cores elsewhere; (3) hence, by C07's bilinear-form theorem, it is sum_{i,j} conj(F e1 [i]) A[i,j] F e2 [j] on the
+   dense objects: the local system the solver builds IS the projection of A onto the frame of the current iterate. ---- *)
+Section LocalProblem.
+Context {R : Type} {RO : RingOps R} {RL : RingLaws R}.
+Theorem C12_phi_fwd_bck_dual (T P : nat -> nat -> nat -> R) (a : core3 R) (c : core4 R) (b : core3 R) :
+  sum_n (r1 a) (fun L => sum_n (q1 c) (fun S => sum_n (r1 b) (fun R' => rmul (phi_fwd T a c b L S R') (P L S R'))))
+  = sum_n (r0 a) (fun l => sum_n (q0 c) (fun s => sum_n (r0 b) (fun r => rmul (T l s r) (phi_bck P a c b l s r)))).
+Proof. exact (phi_fwd_bck_dual T P a c b). Qed.
+Theorem C12_local_mat_galerkin (pre post : tt R) (Apre Apost : ttm R) (ck : core4 R) ra rb l0 m0 L0 r0' n0 R0 :
+  length Apre = length pre -> length Apost = length post ->
+  l0 < ra -> r0' < ra -> L0 < rb -> R0 < rb -> m0 < mm ck -> n0 < nm ck ->
+  chained rb post -> chained4 (q1 ck) Apost ->
+  bilinear_form (pre ++ unit3 ra (mm ck) rb l0 m0 L0 :: post) (Apre ++ ck :: Apost) (pre ++ unit3 ra (nm ck) rb r0' n0 R0 :: post)
+  = local_mat (phiF pre Apre pre ones3) ck (phiB post Apost post) l0 m0 L0 r0' n0 R0.
+Proof. exact (local_mat_galerkin pre post Apre Apost ck ra rb l0 m0 L0 r0' n0 R0). Qed.
+Theorem C12_local_mat_dense (pre post : tt R) (Apre Apost : ttm R) (ck : core4 R) ra rb l0 m0 L0 r0' n0 R0 :
+  length Apre = length pre -> length Apost = length post ->
+  l0 < ra -> r0' < ra -> L0 < rb -> R0 < rb -> m0 < mm ck -> n0 < nm ck ->
+  wf (pre ++ unit3 ra (mm ck) rb l0 m0 L0 :: post) -> wf4 (Apre ++ ck :: Apost) -> wf (pre ++ unit3 ra (nm ck) rb r0' n0 R0 :: post) ->
+  chained rb post -> chained4 (q1 ck) Apost ->
+  local_mat (phiF pre Apre pre ones3) ck (phiB post Apost post) l0 m0 L0 r0' n0 R0
+  = sum_idx (shapeM (Apre ++ ck :: Apost)) (fun is_ => sum_idx (shapeN (Apre ++ ck :: Apost)) (fun js =>
+      rmul (rmul (rconj (entry (pre ++ unit3 ra (mm ck) rb l0 m0 L0 :: post) is_)) (entry4 (Apre ++ ck :: Apost) is_ js))
+           (entry (pre ++ unit3 ra (nm ck) rb r0' n0 R0 :: post) js))).
+Proof. exact (local_mat_dense pre post Apre Apost ck ra rb l0 m0 L0 r0' n0 R0). Qed.
+End LocalProblem.
+
 Print Assumptions C12_rank_search_spec.
 Print Assumptions C12_clamp_rank_le.
 Print Assumptions C12_entry_frame.
 Print Assumptions C12_entry_setc.
 Print Assumptions C12_entry_setc_add.
 Print Assumptions C12_entry_setc_scale.
+Print Assumptions C12_phi_fwd_bck_dual.
+Print Assumptions C12_local_mat_galerkin.
+Print Assumptions C12_local_mat_dense.
